@@ -30,7 +30,7 @@ type ticker struct {
 }
 
 func (t *ticker) Tick() int64 {
-	vsched.Step()
+	vsched.StepK(vsched.KTick)
 	var v int64
 	if t.pos < len(t.stream) {
 		v = t.stream[t.pos]
